@@ -1,35 +1,270 @@
-(* C08 - Numeric equality and ordering are exact and coherent across int / rational / float / complex.
+(* C08 - Numeric equality and ordering are exact and coherent across int / rational / float / complex;
+   sequences compare lexicographically; incomparable kinds raise.
    Only statements here; every proof is `exact <lemma>` into Num/*_proofs.v.
-   f64 is its 64-bit pattern; `real_val` is the exact value in Q u {-inf,+inf} (None for NaN) obtained
-   by the Gallina decoder `decode`; the right-hand sides contain no rounding. *)
-From Coq Require Import ZArith NArith QArith List Bool.
-From NV Require Import Common.Outcome Common.MachineInt Num.FloatBits Num.Cmp Num.CmpSpec Num.Cmp_proofs.
+
+   Model: Num/FloatBits.v (f64 = its 64-bit pattern, exact decoder), Num/Cmp.v (transcription of the
+   comparison code of nint.rs / nnum.rs / core.rs / lib.rs).  Spec: Num/CmpSpec.v.
+   `real_val` is the exact value in Q u {-inf,+inf} (None for NaN); right-hand sides contain no rounding.
+   Every theorem quantifies over all integers, all rationals, all 64-bit patterns, all list lengths. *)
+From Coq Require Import ZArith NArith QArith List Bool Sorting.Permutation Sorting.Sorted.
+From NV Require Import Common.Outcome Common.MachineInt Num.FloatBits Num.Cmp Num.CmpSpec
+  Num.Cmp_proofs Num.Cmp_laws_proofs Num.Cmp_seq_proofs Num.Sort_proofs Num.Cmp_total_proofs.
 Import ListNotations.
 Open Scope Z_scope.
 
-(* partial_cmp on reals of any two levels = comparison of the exact values *)
+(* ---- 1. exactness on reals of any two levels *)
 Theorem C08_cmp_is_exact : forall a b : nreal,
   nreal_partial_cmp a b = exact_cmp (real_val a) (real_val b).
 Proof. exact cmp_is_exact. Qed.
 Print Assumptions C08_cmp_is_exact.
 
-(* ... and it is None exactly when a NaN is involved *)
 Theorem C08_cmp_none_iff_nan : forall a b : nreal,
   nreal_partial_cmp a b = None <-> real_is_nan a = true \/ real_is_nan b = true.
 Proof. exact cmp_none_iff_nan. Qed.
 Print Assumptions C08_cmp_none_iff_nan.
 
-(* == on reals of any two levels = equality of the exact values (false if a NaN is involved) *)
 Theorem C08_eq_is_exact : forall a b : nreal, wf_real a -> wf_real b ->
   nreal_eq a b = is_Eq (exact_cmp (real_val a) (real_val b)).
 Proof. exact eq_is_exact. Qed.
 Print Assumptions C08_eq_is_exact.
 
-(* non-vacuity: 2^53+1 against the double 2^53, 0.1 against 1/10, 1/2 against +inf *)
+(* ---- 2. all four levels: numbers are (re, im) pairs of exact values, compared lexicographically *)
+Theorem C08_complex_as_pairs : forall a b : nnum,
+  nnum_partial_cmp a b = pair_cmp (num_val a) (num_val b).
+Proof. exact complex_as_pairs. Qed.
+Print Assumptions C08_complex_as_pairs.
+
+Theorem C08_num_eq_is_exact : forall a b : nnum, wf_num a -> wf_num b ->
+  nnum_eq a b = is_Eq (pair_cmp (num_val a) (num_val b)).
+Proof. exact num_eq_is_exact. Qed.
+Print Assumptions C08_num_eq_is_exact.
+
+(* ---- 3. the language's operators on numbers without a NaN component: each is the corresponding
+        test on ONE total order (num_compare: exact values, lexicographic on (re, im)) *)
+Theorem C08_ops_are_exact : forall a b : nnum, num_ok a -> num_ok b ->
+  let c := num_compare a b in
+  accept OpEq (ONum a) (ONum b) = Ok (is_eq c) /\
+  accept OpNe (ONum a) (ONum b) = Ok (negb (is_eq c)) /\
+  accept OpLt (ONum a) (ONum b) = Ok (is_lt c) /\
+  accept OpGt (ONum a) (ONum b) = Ok (is_gt c) /\
+  accept OpLe (ONum a) (ONum b) = Ok (negb (is_gt c)) /\
+  accept OpGe (ONum a) (ONum b) = Ok (negb (is_lt c)) /\
+  spaceship (ONum a) (ONum b) = Ok (int_of_cmp c) /\
+  rev_spaceship (ONum a) (ONum b) = Ok (- int_of_cmp c).
+Proof. exact ops_are_exact. Qed.
+Print Assumptions C08_ops_are_exact.
+
+Theorem C08_num_compare_total : total_cmp num_compare.
+Proof. exact total_num_compare. Qed.
+Print Assumptions C08_num_compare_total.
+
+Theorem C08_trichotomy : forall a b : nnum, num_ok a -> num_ok b ->
+  let A := ONum a in let B := ONum b in
+  (accept OpLt A B = Ok true /\ accept OpEq A B = Ok false /\ accept OpGt A B = Ok false) \/
+  (accept OpLt A B = Ok false /\ accept OpEq A B = Ok true /\ accept OpGt A B = Ok false) \/
+  (accept OpLt A B = Ok false /\ accept OpEq A B = Ok false /\ accept OpGt A B = Ok true).
+Proof. exact trichotomy. Qed.
+Print Assumptions C08_trichotomy.
+
+Theorem C08_eq_equivalence :
+  (forall a, num_ok a -> accept OpEq (ONum a) (ONum a) = Ok true) /\
+  (forall a b, num_ok a -> num_ok b ->
+     accept OpEq (ONum a) (ONum b) = Ok true -> accept OpEq (ONum b) (ONum a) = Ok true) /\
+  (forall a b c, num_ok a -> num_ok b -> num_ok c ->
+     accept OpEq (ONum a) (ONum b) = Ok true -> accept OpEq (ONum b) (ONum c) = Ok true ->
+     accept OpEq (ONum a) (ONum c) = Ok true).
+Proof. exact eq_equivalence. Qed.
+Print Assumptions C08_eq_equivalence.
+
+Theorem C08_lt_transitive : forall a b c : nnum, num_ok a -> num_ok b -> num_ok c ->
+  accept OpLt (ONum a) (ONum b) = Ok true -> accept OpLt (ONum b) (ONum c) = Ok true ->
+  accept OpLt (ONum a) (ONum c) = Ok true.
+Proof. exact lt_transitive. Qed.
+Print Assumptions C08_lt_transitive.
+
+Theorem C08_lt_respects_eq : forall a b c : nnum, num_ok a -> num_ok b -> num_ok c ->
+  accept OpEq (ONum a) (ONum b) = Ok true ->
+  accept OpLt (ONum a) (ONum c) = accept OpLt (ONum b) (ONum c) /\
+  accept OpLt (ONum c) (ONum a) = accept OpLt (ONum c) (ONum b).
+Proof. exact lt_respects_eq. Qed.
+Print Assumptions C08_lt_respects_eq.
+
+Theorem C08_spaceship_antisym : forall a b : nnum, num_ok a -> num_ok b ->
+  exists z, spaceship (ONum a) (ONum b) = Ok z /\ spaceship (ONum b) (ONum a) = Ok (- z) /\
+            rev_spaceship (ONum a) (ONum b) = Ok (- z) /\ (z = -1 \/ z = 0 \/ z = 1).
+Proof. exact spaceship_antisym. Qed.
+Print Assumptions C08_spaceship_antisym.
+
+(* a NaN where the comparison looks: every ordering operator raises (== is false by C08_num_eq_is_exact) *)
+Theorem C08_nan_raises : forall a b : nnum, nnum_partial_cmp a b = None ->
+  ncmp (ONum a) (ONum b) = Err EType /\
+  (forall op, op <> OpEq -> op <> OpNe -> accept op (ONum a) (ONum b) = Err EType) /\
+  spaceship (ONum a) (ONum b) = Err EType.
+Proof. exact nan_raises. Qed.
+Print Assumptions C08_nan_raises.
+
+(* ---- 4. incomparable kinds raise; == / != never raise *)
+Theorem C08_incomparable_raises : forall a b : obj,
+  ordered_pair a b = false ->
+  ncmp a b = Err EType /\
+  accept OpLt a b = Err EType /\ accept OpGt a b = Err EType /\
+  accept OpLe a b = Err EType /\ accept OpGe a b = Err EType /\
+  spaceship a b = Err EType /\ rev_spaceship a b = Err EType /\
+  builtin_min [a; b] = Err EType /\ builtin_max [a; b] = Err EType /\
+  (exists e, accept OpEq a b = Ok e /\ accept OpNe a b = Ok (negb e)).
+Proof. exact incomparable_raises. Qed.
+Print Assumptions C08_incomparable_raises.
+
+Theorem C08_ncmp_ok_only_ordered : forall (a b : obj) (o : comparison),
+  ncmp a b = Ok o -> ordered_pair a b = true.
+Proof. exact ncmp_ok_only_ordered. Qed.
+Print Assumptions C08_ncmp_ok_only_ordered.
+
+(* ---- 5. sequences: the lexicographic extension of the element comparison *)
+Theorem C08_lex_order :
+  (forall l r, obj_partial_cmp (OList l) (OList r) = lex_spec obj_partial_cmp l r) /\
+  (forall l r, obj_partial_cmp (OVector l) (OVector r) = lex_spec nnum_partial_cmp l r) /\
+  (forall l r, obj_partial_cmp (OString l) (OString r) = lex_spec n_partial_cmp l r) /\
+  (forall l r, obj_partial_cmp (OBytes l) (OBytes r) = lex_spec n_partial_cmp l r).
+Proof. exact lex_order. Qed.
+Print Assumptions C08_lex_order.
+
+Theorem C08_ncmp_seq : forall a b : obj, is_seq a = true -> is_seq b = true ->
+  ncmp a b = match obj_partial_cmp a b with Some o => Ok o | None => Err EType end.
+Proof. exact ncmp_seq. Qed.
+Print Assumptions C08_ncmp_seq.
+
+(* == is true exactly when <=> answers 0, for nested values built from non-NaN numbers *)
+Theorem C08_eq_coherent_with_cmp : forall a : obj, clean a -> forall b : obj, clean b ->
+  obj_eq a b = is_Eq (obj_partial_cmp a b).
+Proof. exact eq_coherent_with_cmp. Qed.
+Print Assumptions C08_eq_coherent_with_cmp.
+
+(* ---- 6. the order laws for ALL values: the language's partial order is the restriction of one
+        total comparison, so wherever the comparisons are defined they are coherent *)
+Theorem C08_total_extension :
+  total_cmp obj_total /\
+  (forall a b o, obj_partial_cmp a b = Some o -> obj_total a b = o) /\
+  (forall a b o, ncmp a b = Ok o -> obj_partial_cmp a b = Some o).
+Proof. exact (conj total_obj_total (conj partial_cmp_is_total ncmp_is_partial_cmp)). Qed.
+Print Assumptions C08_total_extension.
+
+Theorem C08_lt_transitive_all_values : forall a b c : obj,
+  accept OpLt a b = Ok true -> accept OpLt b c = Ok true ->
+  forall o, ncmp a c = Ok o -> o = Lt.
+Proof. exact lt_transitive_obj. Qed.
+Print Assumptions C08_lt_transitive_all_values.
+
+Theorem C08_spaceship_antisym_all_values : forall (a b : obj) (x y : Z),
+  spaceship a b = Ok x -> spaceship b a = Ok y -> y = - x.
+Proof. exact spaceship_antisym_obj. Qed.
+Print Assumptions C08_spaceship_antisym_all_values.
+
+Theorem C08_chain_is_conjunction : forall (x : obj) (links : list (cmpop * obj)),
+  chain_run x links = Ok true <->
+  Forall (fun t => accept (fst (fst t)) (snd (fst t)) (snd t) = Ok true) (link_list x links).
+Proof. exact chain_is_conjunction. Qed.
+Print Assumptions C08_chain_is_conjunction.
+
+(* ---- 7. sort *)
+(* on a pairwise comparable list: an ascending, stable rearrangement (language's own comparison only) *)
+Theorem C08_sort_sorted_stable_perm : forall l : list obj, pairwise_comparable l ->
+  exists s, sorted_objs l = Ok s /\ Permutation l s /\ StronglySorted le_obj s /\
+            forall k, In k l -> filter (eqv_obj k) s = filter (eqv_obj k) l.
+Proof. exact sort_sorted_stable_perm. Qed.
+Print Assumptions C08_sort_sorted_stable_perm.
+
+(* any two stable sorts by a total comparison agree (any element type, any key function) ... *)
+Theorem C08_stable_sort_unique : forall (A K : Type) (key : A -> K) (c : K -> K -> comparison),
+  total_cmp c -> forall l s1 s2 : list A,
+  stable_sort_of c key l s1 -> stable_sort_of c key l s2 -> s1 = s2.
+Proof. intros A K key c T. exact (stable_sort_unique key c T). Qed.
+Print Assumptions C08_stable_sort_unique.
+
+(* ... so whatever stable algorithm Vec::sort_by is, its result is the model's insertion sort *)
+Theorem C08_any_stable_sort_is_model : forall l s : list obj, pairwise_comparable l ->
+  stable_sort_of obj_total (fun x => x) l s -> sorted_objs l = Ok s.
+Proof. exact stable_sort_unique_obj. Qed.
+Print Assumptions C08_any_stable_sort_is_model.
+
+Theorem C08_sort_on_stable : forall (A : Type) (key : A -> obj) (l : list A),
+  pairwise_ncmp (map key l) ->
+  exists s, sorted_on key l = Ok s /\ stable_sort_of obj_total key l s.
+Proof. exact @sort_on_stable. Qed.
+Print Assumptions C08_sort_on_stable.
+
+Theorem C08_sort_nums_stable : forall l : list nnum, Forall (fun n => nnum_is_nan n = false) l ->
+  exists s, sorted_nums l = Ok s /\ stable_sort_of num_compare (fun x => x) l s.
+Proof. exact sort_nums_stable. Qed.
+Print Assumptions C08_sort_nums_stable.
+
+Theorem C08_sort_incomparable_raises : forall x y : obj,
+  obj_partial_cmp x y = None -> sorted_objs [x; y] = Err EValue.
+Proof. exact sort_none_if_all_incomparable. Qed.
+Print Assumptions C08_sort_incomparable_raises.
+
+(* ---- 8. min / max *)
+Theorem C08_min_max_agree_with_order : forall l : list obj, l <> [] -> pairwise_ncmp l ->
+  (exists pre m post, l = pre ++ m :: post /\ builtin_min l = Ok m /\
+     (forall y, In y pre -> ncmp m y = Ok Lt) /\ (forall y, In y post -> ncmp y m <> Ok Lt)) /\
+  (exists pre m post, l = pre ++ m :: post /\ builtin_max l = Ok m /\
+     (forall y, In y pre -> ncmp m y = Ok Gt) /\ (forall y, In y post -> ncmp y m <> Ok Gt)).
+Proof. exact min_max_agree_with_order. Qed.
+Print Assumptions C08_min_max_agree_with_order.
+
+Theorem C08_min_max_vs_sort : forall (l s : list obj) (m M : obj), pairwise_ncmp l ->
+  sorted_objs l = Ok s -> builtin_min l = Ok m -> builtin_max l = Ok M ->
+  hd_error s = Some m /\ forall d, ncmp (last s d) M = Ok Eq.
+Proof. exact min_max_vs_sort. Qed.
+Print Assumptions C08_min_max_vs_sort.
+
+(* ---- 9. the total orders of nnum.rs (total_cmp_small_nan / total_cmp_big_nan) and NNum::min / max *)
+Theorem C08_total_cmps_exact : forall a b : nnum,
+  nnum_total_cmp_small_nan a b = lexc small_nan_cmp small_nan_cmp (num_val a) (num_val b) /\
+  nnum_total_cmp_big_nan a b = lexc big_nan_cmp big_nan_cmp (num_val a) (num_val b).
+Proof. exact nnum_total_cmp_exact. Qed.
+Print Assumptions C08_total_cmps_exact.
+
+Theorem C08_total_cmps_total_and_extend :
+  total_cmp nnum_total_cmp_small_nan /\ total_cmp nnum_total_cmp_big_nan /\
+  forall a b o, nnum_partial_cmp a b = Some o ->
+    nnum_total_cmp_small_nan a b = o /\ nnum_total_cmp_big_nan a b = o.
+Proof. exact (conj (proj1 nnum_total_cmps_total) (conj (proj2 nnum_total_cmps_total) total_cmps_extend_partial)). Qed.
+Print Assumptions C08_total_cmps_total_and_extend.
+
+Theorem C08_nnum_min_max_rules : forall a b : nnum,
+  (forall o, nnum_partial_cmp a b = Some o ->
+     nnum_min a b = (match o with Gt => b | _ => a end) /\ nnum_max a b = (match o with Gt => a | _ => b end)) /\
+  (forall f, a = NFloat f -> f_is_nan f = true -> nnum_is_nan b = false ->
+     match b with NComplex _ _ => True | _ =>
+       nnum_min a b = b /\ nnum_max a b = b /\ nnum_min b a = b /\ nnum_max b a = b end).
+Proof. exact nnum_min_max_rules. Qed.
+Print Assumptions C08_nnum_min_max_rules.
+
+(* ---- non-vacuity: the hypotheses are met by ordinary data and the functions compute.
+   2^53+1 against the double 2^53; 0.1 against 1/10; 1/2 against +inf; a NaN; kinds; a sort with a tie
+   between 1.0 and 1 (stability visible); min/max of [1.0; 0; 1]. *)
 Example C08_nonvacuous :
   nreal_partial_cmp (RInt (Small (2 ^ 53 + 1))) (RFloat 0x4340000000000000%N) = Some Gt /\
   nreal_eq (RInt (Small (2 ^ 53))) (RFloat 0x4340000000000000%N) = true /\
   nreal_partial_cmp (RFloat 0x3fb999999999999a%N) (RRat (1 # 10)) = Some Gt /\
   nreal_partial_cmp (RRat (1 # 2)) (RFloat 0x7ff0000000000000%N) = Some Lt /\
-  nreal_partial_cmp (RInt (Big 0)) (RFloat 0x7ff8000000000000%N) = None.
-Proof. repeat split; vm_compute; reflexivity. Qed.
+  nreal_partial_cmp (RInt (Big 0)) (RFloat 0x7ff8000000000000%N) = None /\
+  num_ok (NInt (Small 5)) /\ num_ok (NFloat 0x3fb999999999999a%N) /\ num_ok (NComplex 0x3ff0000000000000%N 0%N) /\
+  accept OpLt (ONum (NInt (Small 1))) (OString [97%N]) = Err EType /\
+  accept OpLt (OList [ONum (NInt (Small 1)); OString [97%N]]) (OList [ONum (NFloat 0x3ff0000000000000%N); OString [98%N]]) = Ok true /\
+  pairwise_comparable [ONum (NFloat 0x3ff0000000000000%N); ONum (NInt (Small 0)); ONum (NInt (Small 1))] /\
+  sorted_objs [ONum (NFloat 0x3ff0000000000000%N); ONum (NInt (Small 0)); ONum (NInt (Small 1))]
+    = Ok [ONum (NInt (Small 0)); ONum (NFloat 0x3ff0000000000000%N); ONum (NInt (Small 1))] /\
+  builtin_max [ONum (NFloat 0x3ff0000000000000%N); ONum (NInt (Small 0)); ONum (NInt (Small 1))] = Ok (ONum (NFloat 0x3ff0000000000000%N)) /\
+  clean (OList [ONum (NInt (Small 1)); OVector [NRational (1 # 2)]]).
+Proof.
+  repeat match goal with |- _ /\ _ => split end;
+    try (match goal with |- @eq _ _ _ => vm_compute; reflexivity end).
+  - split; [split; discriminate|reflexivity].
+  - split; [exact I|vm_compute; reflexivity].
+  - split; [exact I|vm_compute; reflexivity].
+  - intros x y [<-|[<-|[<-|[]]]] [<-|[<-|[<-|[]]]]; vm_compute; discriminate.
+  - constructor. constructor; [constructor; split; [split; discriminate|reflexivity]|].
+    constructor; [|constructor]. constructor. constructor; [|constructor]. split; [exact I|reflexivity].
+Qed.
